@@ -16,3 +16,16 @@ add("C04", "E1 ctxmachine", "model_checking",
     "From each of a set of context states reached by real checks, every (annotation, value) of an alphabet built so that the mismatch or exception is only discoverable after k axes / k leaves matched is executed on the implementation; after every rejected or raising check the context must be identical (internal memo, print_bindings text and a non-binding public probe battery) and after every passing check an immediate repeat must pass and change nothing. One injected fault (Exception and BaseException) at every access of shape/dtype.",
     "Faults are injected only through harness-owned array objects (shape/dtype properties); the same invariant is additionally evaluated on every C01 transition.",
     "DESIGN.md §6 C04")
+
+ENGINES[0]["serves_properties"] += ["C08", "C09"]
+ENGINES[0]["path"] = "vf/checks/c01.py c04.py c08.py c09.py c16.py, vf/adapter.py, vf/specs.py, vf/trees.py"
+add("C08", "E1 ctxmachine", "model_checking",
+    "explicit-state exploration: exhaustive tree x leaf-type x context enumeration against a reference flattener, plus differential PyTree[L] vs PyTree[PyTree[L]]",
+    "Every tree of the bounded family (depth<=2, arity<=2, all container kinds incl. None, empties, namedtuple, registered node; depth-3/4 spines) is checked on the implementation against PyTree[L] and PyTree[PyTree[L]] for 10 leaf types from 3 prior context states; verdict and successor context are compared with an independent top-down flattener/matcher and the two annotations with each other; rejected trees must leave the context unchanged.",
+    "Trusts vf/refs/pytrees.py + leaftypes.py (independent of jax.tree_util); leaf types whose type-only and full matching would disagree on what a leaf is are not generated (statement silent).",
+    "DESIGN.md §6 C08")
+add("C09", "E1 ctxmachine", "model_checking",
+    "explicit-state exploration of structure bindings against a reference structure algebra; exhaustive structure-string enumeration",
+    "For every structure T (and pairs S,T) of depth<=1 bound by a real first check, every candidate tree of depth<=2 (thorough: all 27k; quick: strided plus everything derived from T by composition/mutation) is checked against all forms T, 'T ...', '... T', 'S T', 'T S', 'T T', 'S T ...', '... S T'; verdicts must equal the reference algebra (equality, composition, prefix, suffix = exists O. O∘T = X), unbound names in composites must raise AnnotationError, nothing may change the context; every structure string of <=3 pieces must build or raise ValueError exactly as the grammar says.",
+    "Don't-care: '...' alone or at both ends, non-string structures, a name first used on a top-level None (accepted without binding, per C08).",
+    "DESIGN.md §6 C09")
